@@ -211,3 +211,51 @@ impl<T: Target> Client<T, Open> {
         })
     }
 }
+
+#[cfg(feature = "verif")]
+pub(crate) mod verif {
+    use std::{fmt, future::Future, marker::PhantomData, pin::Pin, sync::Arc};
+
+    use netconf::{transport::Transport, Session};
+
+    use super::{Client, Closed, Target};
+
+    type Connect<T> = dyn Fn() -> Pin<Box<dyn Future<Output = anyhow::Result<Session<T>>> + Send>>
+        + Send
+        + Sync;
+
+    pub(crate) struct SimTarget<T: Transport> {
+        connect: Arc<Connect<T>>,
+    }
+
+    impl<T: Transport> SimTarget<T> {
+        pub(crate) fn new(connect: Arc<Connect<T>>) -> Self {
+            Self { connect }
+        }
+    }
+
+    impl<T: Transport> Clone for SimTarget<T> {
+        fn clone(&self) -> Self {
+            Self {
+                connect: self.connect.clone(),
+            }
+        }
+    }
+
+    impl<T: Transport> fmt::Debug for SimTarget<T> {
+        fn fmt(&self, f: &mut fmt::Formatter<'_>) -> fmt::Result {
+            f.write_str("SimTarget")
+        }
+    }
+
+    impl<T: Transport + 'static> Target for SimTarget<T> {
+        type Transport = T;
+
+        async fn connect(self) -> anyhow::Result<Client<Self, Closed>> {
+            (self.connect)().await.map(|session| Client {
+                session,
+                _db_state: PhantomData,
+            })
+        }
+    }
+}
